@@ -41,6 +41,8 @@
 #include "hdf.h"
 #include "mfhdf.h"
 #include "nc_priv.h"
+#include "vg_priv.h"
+#include "mfgr_priv.h"
 
 #define MAXV 64
 static int32 sd = FAIL, hf = FAIL, gr = FAIL;
@@ -195,6 +197,7 @@ static void run_history(const char *dir, char **lines, long *lnos, long n)
     snprintf(sdname, sizeof sdname, "%s/%d_sd.hdf", dir, (int)getpid());
     snprintf(hname, sizeof hname, "%s/%d_h.hdf", dir, (int)getpid());
     unlink(sdname); unlink(hname);
+    ncopts = 0;    /* what SDstart does: netCDF-level errors are returned, not fatal (the unit.* ops run without SDstart) */
     for (long li = 0; li < n; li++) {
         long  ln = lnos[li];
         char *line = lines[li];
@@ -482,6 +485,20 @@ static void run_history(const char *dir, char **lines, long *lnos, long n)
             free(name);
             if (ri != FAIL) GRendaccess(ri);
         }
+        else if (!strcmp(op, "gr.raw")) {          /* R-vs-M observable: the attribute tree in key order */
+            int32 ri; int32 id = gr_obj(tok[1], &ri);
+            TBBT_TREE *tree = NULL; int32 cnt = -1;
+            if (id != FAIL && tok[1][0] == 'G') { gr_info_t *g = (gr_info_t *)HAatom_object(id); tree = g->gattree; cnt = g->gattr_count; }
+            else if (id != FAIL) { ri_info_t *r_ = (ri_info_t *)HAatom_object(id); tree = r_->lattree; cnt = r_->lattr_count; }
+            if (!tree) { FAILLN(); continue; }
+            printf("%ld ok %d", ln, (int)cnt);
+            for (void **t = (void **)tbbtfirst(tree->root); t; t = (void **)tbbtnext((TBBT_NODE *)t)) {
+                at_info_t *a = (at_info_t *)*t;
+                printf(" %d", (int)a->index); pstr(a->name); printf(" %d %d", (int)a->nt, (int)a->len);
+            }
+            printf("\n");
+            if (ri != FAIL) GRendaccess(ri);
+        }
         else if (!strcmp(op, "gr.lookup")) {
             int32 nim = 0, na = 0;
             if (GRfileinfo(gr, &nim, &na) == FAIL) { FAILLN(); continue; }
@@ -541,6 +558,20 @@ static void run_history(const char *dir, char **lines, long *lnos, long n)
                     printf("\n");
                 }
             }
+            else if (!strcmp(op, "vs.raw")) {      /* R-vs-M observable: the raw attribute table and its attribute Vdatas */
+                vsinstance_t *w = (vsinstance_t *)HAatom_object(vs);
+                VDATA *v = w ? w->vs : NULL;
+                printf("%ld ok %d", ln, v ? (int)v->nattrs : -1);
+                for (int i = 0; v && i < v->nattrs; i++) {
+                    int32 a = VSattach(hf, (int32)v->alist[i].aref, "r");
+                    char nm[VSNAMELENMAX + 1] = "", cl[VSNAMELENMAX + 1] = "";
+                    VSgetname(a, nm); VSgetclass(a, cl);
+                    printf(" %d", (int)v->alist[i].findex); pstr(nm); pstr(cl); pstr(VFfieldname(a, 0));
+                    printf(" %d %d %d", (int)VFfieldtype(a, 0), (int)VFfieldorder(a, 0), (int)VSelts(a));
+                    VSdetach(a);
+                }
+                printf("\n");
+            }
             else if (!strcmp(op, "vs.attrinfo")) {
                 char nm[1024]; int32 a, b, c;
                 if (VSattrinfo(vs, fi, atoi(tok[3]), nm, &a, &b, &c) == FAIL) FAILLN();
@@ -586,6 +617,20 @@ static void run_history(const char *dir, char **lines, long *lnos, long n)
                     for (int i = 0; i < n_; i++) if (!vg_one_attr(vg, i, 1)) printf(" FAIL");
                     printf("\n");
                 }
+            }
+            else if (!strcmp(op, "vg.raw")) {
+                vginstance_t *w = (vginstance_t *)HAatom_object(vg);
+                VGROUP *g = w ? w->vg : NULL;
+                printf("%ld ok %d", ln, g ? (int)g->nattrs : -1);
+                for (int i = 0; g && i < g->nattrs; i++) {
+                    int32 a = VSattach(hf, (int32)g->alist[i].aref, "r");
+                    char nm[VSNAMELENMAX + 1] = "", cl[VSNAMELENMAX + 1] = "";
+                    VSgetname(a, nm); VSgetclass(a, cl);
+                    printf(" 0"); pstr(nm); pstr(cl); pstr(VFfieldname(a, 0));
+                    printf(" %d %d %d", (int)VFfieldtype(a, 0), (int)VFfieldorder(a, 0), (int)VSelts(a));
+                    VSdetach(a);
+                }
+                printf("\n");
             }
             else if (!strcmp(op, "vg.attrinfo")) {
                 char nm[1024]; int32 a, b, c;
